@@ -949,10 +949,16 @@ func ruleCtorReentry(rule string) RuleFn {
 			good, why = false, "re-entry is not reported as an error that IsCycleDetected recognises"
 		}
 		// restored on exit: a deferred closure stores into n.building
-		restored := false
-		for _, cl := range fn.AnonFuncs {
-			if len(an.StoresToField(cl, "constructorNode", "building")) > 0 {
-				restored = true
+		restored := len(builds) > 0
+		for _, b := range builds {
+			if !deferredAlways(fn, b, func(cl *ssa.Function) []ssa.Instruction {
+				var out []ssa.Instruction
+				for _, st := range an.StoresToField(cl, "constructorNode", "building") {
+					out = append(out, st)
+				}
+				return out
+			}) {
+				restored = false
 			}
 		}
 		if !restored && good {
@@ -996,16 +1002,22 @@ func ruleCtorReentry(rule string) RuleFn {
 					okRun, whyRun = false, "a call that finds the constructor function running can still proceed"
 				}
 			}
-			restoredRun := false
-			for _, cl := range fn.AnonFuncs {
-				for _, st := range an.StoresToField(cl, "constructorNode", "running") {
-					if an.Norm(st.Val) == "false" {
-						restoredRun = true
+			// cleared whatever happens: before the user's function is called a closure is deferred - on every path,
+			// not only under RecoverFromPanics - that stores false on every path through it. A clear after the call,
+			// or inside a recover handler that exists only with the option, leaves the flag set when the function
+			// panics: every later request is then answered "cycle detected" on an acyclic graph
+			for _, k := range an.Sinks(fn, "invokerFn") {
+				if okRun && !deferredAlways(fn, k.(ssa.Instruction), func(cl *ssa.Function) []ssa.Instruction {
+					var out []ssa.Instruction
+					for _, st := range an.StoresToField(cl, "constructorNode", "running") {
+						if an.Norm(st.Val) == "false" {
+							out = append(out, st)
+						}
 					}
+					return out
+				}) {
+					okRun, whyRun = false, "the running flag is not cleared by a function deferred on every path to the call (a panicking constructor without RecoverFromPanics leaves it set: every later request for it is rejected as a cycle although the graph is acyclic)"
 				}
-			}
-			if okRun && !restoredRun {
-				okRun, whyRun = false, "the running flag is not cleared by a deferred function"
 			}
 		}
 		c.Check(okRun, rule, cons3, "running = true around the invoker call; tested unconditionally at entry; cleared by defer", whyRun, mark[0], nil)
@@ -1098,4 +1110,39 @@ func ruleCtorReentry(rule string) RuleFn {
 			c.Check(goodInc, rule, "decoratorNode.Call counts its start before it builds its arguments", "rootScope().decoratorsStarted++ dominates BuildList", "a decorator can build its arguments without having counted its start: the constructor it re-enters legitimately (it decorates one of that constructor's dependencies and consumes its result) sees an unchanged counter and reports a cycle", nil, nil)
 		}
 	}
+}
+
+// deferredAlways: every path from the entry of fn to target passes a defer of a closure in which every path to a
+// return passes one of the instructions clear(closure) returns.
+func deferredAlways(fn *ssa.Function, target ssa.Instruction, clear func(*ssa.Function) []ssa.Instruction) bool {
+	var defers []ssa.Instruction
+	an.Instrs(fn, func(in ssa.Instruction) {
+		d, ok := in.(*ssa.Defer)
+		if !ok {
+			return
+		}
+		var cl *ssa.Function
+		switch v := d.Call.Value.(type) {
+		case *ssa.MakeClosure:
+			cl, _ = v.Fn.(*ssa.Function)
+		case *ssa.Function:
+			cl = v
+		}
+		if cl == nil || len(cl.Blocks) == 0 {
+			return
+		}
+		cs := clear(cl)
+		if len(cs) == 0 {
+			return
+		}
+		isRet := func(i ssa.Instruction) bool { _, ok := i.(*ssa.Return); return ok }
+		if hit, _ := an.PathTo(cl, nil, isRet, an.NewGates().AddInstr(cs...)); hit == nil {
+			defers = append(defers, in)
+		}
+	})
+	if len(defers) == 0 {
+		return false
+	}
+	hit, _ := an.PathTo(fn, nil, an.IsInstr(target), an.NewGates().AddInstr(defers...))
+	return hit == nil
 }
